@@ -94,7 +94,7 @@ class Read:
                 stats['read_spelling'][o[1]] += 1; stats['read_ndim'][len(a['dims'])] += 1
                 fmt = rng.choice(['NETCDF4', 'NETCDF4', 'NETCDF3_CLASSIC'])
                 if fmt != 'NETCDF4' and 'O' in a['axdtype']: fmt = 'NETCDF4'
-                via = rng.choice(['handle', 'handle', 'read_nc', 'dataset_read'])
+                via = rng.choice(['handle', 'handle', 'read_nc', 'dataset_read', 'file_read'])
                 # the file may hold, before 'v', a variable over the same dimensions in the REVERSE order: the file's dimension order
                 # then differs from v's own, and a read through the dataset (a list of names) must still index v by dimension NAME
                 rev = len(a['dims']) >= 2 and all(len(l) > 0 for l in a['labels']) and rng.random() < 0.5
@@ -133,7 +133,14 @@ class Read:
                         # dimensions are named here
                         if isinstance(idx, dict): idx = dict((loaded.dims[k_] if isinstance(k_, int) else k_, v_) for k_, v_ in idx.items())
                         if isinstance(kw.get('axis'), int): kw['axis'] = loaded.dims[kw['axis']]
-                    if c['via'] == 'read_nc':
+                    if c['via'] == 'file_read':
+                        # the WHOLE file through the same index (no names): what Dataset.take gives on the loaded dataset
+                        idx_ = idx if isinstance(idx, dict) or 'axis' in kw else dict(zip(loaded.dims, idx if isinstance(idx, tuple) else (idx,)))
+                        if isinstance(idx_, dict): idx_ = dict((loaded.dims[k_] if isinstance(k_, int) else k_, v_) for k_, v_ in idx_.items())
+                        if isinstance(kw.get('axis'), int): kw['axis'] = loaded.dims[kw['axis']]
+                        mem = run_obs(lambda: dict.__getitem__(D.read_nc(f).take(indices=idx_, tol=t, keepdims=keepdims, **kw), 'v'))
+                        disk = run_obs(lambda: dict.__getitem__(D.read_nc(f, indices=idx_, tol=t, keepdims=keepdims, **kw), 'v'))
+                    elif c['via'] == 'read_nc':
                         if c.get('rev_first') and (isinstance(idx, dict) or 'axis' in kw):
                             disk = run_obs(lambda: D.read_nc(f, ['v'], indices=idx, tol=t, keepdims=keepdims, **kw)['v'])      # a list of names: dataset read
                         else:
@@ -208,8 +215,9 @@ class Write:
                 nfix = rng.randint(1, 3); fixlabs = rand_labels(rng, nfix, rng.choice(['i', 'f', 'O']), 'shuf')
                 steps = []; cur = []
                 pool = rand_labels(rng, 6, k, rng.choice(['inc', 'shuf']))
-                for _ in range(rng.randint(1, 4)):
-                    m = rng.randint(1, 2)
+                single = rng.random() < 0.2      # a one-record variable: the smallest size, where a mask [True] reads like the position 1
+                for _ in range(1 if single else rng.randint(1, 4)):
+                    m = 1 if single else rng.randint(1, 2)
                     newlabs = pool[len(cur):len(cur) + m]
                     if not newlabs: break
                     vals = [[float(rng.randint(0, 20)) for _ in range(nfix)] for _ in newlabs]
@@ -217,12 +225,12 @@ class Write:
                     cur += newlabs
                 stats['write_kind']['unlimited'] += 1
                 over = None
-                if cur and rng.random() < 0.35:
+                if cur and rng.random() < (0.8 if single else 0.35):
                     # then an assignment INSIDE the existing range, the value being a DimArray whose own time labels are other ones:
                     # as in memory, only the values change (the axis is extended by writes beyond its end only)
                     m = rng.randint(1, min(2, len(cur))); p0 = rng.randint(0, len(cur) - m)
                     over = {'pos': p0, 'm': m, 'labels': [x + 1000 for x in cur[p0:p0 + m]], 'values': [[float(rng.randint(50, 70)) for _ in range(nfix)] for _ in range(m)],
-                            'how': rng.choice(['slice', 'list'])}
+                            'how': rng.choice(['slice', 'list', 'mask']) if len(cur) > 1 else rng.choice(['slice', 'mask', 'mask'])}
                     stats['write_kind']['unlimited+overwrite'] += 1
                 strad = None
                 if cur and over is None and len(pool) > len(cur) and rng.random() < 0.4:
@@ -304,6 +312,7 @@ class Write:
                             piece = D.DimArray(np.array(ov['values']), axes=[D.Axis(ops.labs_np(ov['labels'], c['tkind']), 'time'), h.axes['x'][:]])
                             mem = h['v'].read()
                             key = slice(ov['pos'], ov['pos'] + ov['m']) if ov['how'] == 'slice' else list(range(ov['pos'], ov['pos'] + ov['m']))
+                            if ov['how'] == 'mask': key = np.array([ov['pos'] <= j_ < ov['pos'] + ov['m'] for j_ in range(len(alll))])
                             mem.ix[key] = piece
                             h['v'].ix[key] = piece
                             got = h['v'].read()
